@@ -27,6 +27,7 @@ import (
 	"os"
 	"path/filepath"
 	"regexp"
+	"runtime"
 	"sort"
 	"strconv"
 	"strings"
@@ -231,6 +232,22 @@ func treeHash(dir string) string {
 // encoded and written: a client whose command is served in that window.
 var midSnapshot func()
 
+// fromTicker: the calling goroutine is the snapshot engine's ticker (the closure started by NewSnapshotEngine).
+func fromTicker() bool {
+	pcs := make([]uintptr, 32)
+	n := runtime.Callers(2, pcs)
+	frames := runtime.CallersFrames(pcs[:n])
+	for {
+		fr, more := frames.Next()
+		if strings.Contains(fr.Function, "snapshot.NewSnapshotEngine.func") {
+			return true
+		}
+		if !more {
+			return false
+		}
+	}
+}
+
 // hook is called on the goroutine that takes the snapshot.
 func hook(point, file string) {
 	dir := dirOf(file)
@@ -243,8 +260,10 @@ func hook(point, file string) {
 	if strings.HasPrefix(point, "restore-") {
 		return
 	}
-	if expect.Load() == 0 {
-		// a snapshot started by the ticker: it runs only while the command loop sleeps in Z
+	if fromTicker() {
+		// a snapshot started by the ticker: it runs only while the command loop sleeps in Z (told apart from a SAVE /
+		// VerifTakeSnapshot the script asked for by its call stack, not by what the command loop is doing: a tick may
+		// fall into an explicit snapshot)
 		switch point {
 		case "enter":
 			mu.Lock()
